@@ -577,6 +577,35 @@ class Program:
                 m = self.lookup_method(caller.cls, fnode.attr)
                 if m is not None and m.module is caller.module and not m.is_static and not overridden(m):
                     return m, fnode.value
+            elif isinstance(fnode, ast.Attribute) and isinstance(fnode.value, ast.Name) and caller.parent is None:
+                # a method of a parameter whose annotation names a class of the package (`parent_ns.child(x)`): the names its
+                # body reads must denote the same things where the call is written
+                arg = next((a_ for a_ in caller.params() if a_.arg == fnode.value.id), None)
+                if arg is None or arg.annotation is None or not isinstance(arg.annotation, (ast.Name, ast.Attribute)):
+                    return None
+                if any(isinstance(x, ast.Name) and x.id == arg.arg and isinstance(x.ctx, ast.Store) for x in ast.walk(caller.node)):
+                    return None
+                c_ = self.resolve_expr_symbol(caller.module, arg.annotation)
+                if not isinstance(c_, ClassInfo):
+                    return None
+                m = self.lookup_method(c_, fnode.attr)
+                if m is None or m.is_static or m.is_property or getattr(m, 'is_classmethod', False) or overridden(m):
+                    return None
+                if any(sub is not c_ and self.is_subclass(sub.fq, c_.fq) and fnode.attr in sub.methods for sub in self.classes.values()):
+                    return None
+                be = body_expr(m)
+                if be is None:
+                    return None
+                params_ = {a_.arg for a_ in m.params()}
+                bound_ = {t.id for x in ast.walk(be) if isinstance(x, ast.comprehension) for t in ast.walk(x.target) if isinstance(t, ast.Name)}
+                for x in ast.walk(be):
+                    if isinstance(x, ast.Name) and x.id not in params_ and x.id not in bound_:
+                        s1, s2 = self.resolve_name(m.module, x.id), self.resolve_name(caller.module, x.id)
+                        if s1 is None and s2 is None:
+                            continue        # a builtin in both
+                        if s1 is not s2:
+                            return None
+                return m, fnode.value
             return None
 
         for _round in range(max_rounds):
